@@ -77,7 +77,8 @@ claim("C06", "other",
       "methods, properties and functions passed as values included): set iterations outside the engine are order-insensitive, "
       "nothing writes module/class level state except the State id counter and memos whose key contains every input of the stored value "
       "(inputs by access path, through locals and control dependence; a key that is a function of an input - len, str - does not count; "
-      "the dictionary must start empty), nondeterministic sources reach only uuid/timestamp, no "
+      "the dictionary must start empty and the key must not be constant) - the inventory covers module-level and class-body containers "
+      "(also through self.X), mutable default arguments, local aliases and module-level one-shot iterators -, nondeterministic sources reach only uuid/timestamp, no "
       "expression has two equal stateful atoms.",
       "Trusted: pygments determinism; CHA over-approximates dynamic dispatch by method name. File listing order of os.walk is outside the property.",
       "DESIGN.md 4/C06, 13")
@@ -85,7 +86,7 @@ claim("C06", "other",
 claim("C08", "other",
       "abstract interpretation of ReportWriter / ReportReader on a report built through the repo's constructors (json.dumps/loads real, everything else interpreted) + textual schema rules (f-string placeholder classification, key trees)",
       "Round trip evaluated: every string field carries a distinct tag plus quote, backslash, newline, tab, control, non-ASCII and U+2028 "
-      "characters, every number is distinct; pretty and compact documents are valid JSON and parse to the same value; the re-read report "
+      "characters (and names with only a backslash, only a quote), every number is distinct; pretty and compact documents are valid JSON and parse to the same value; the re-read report "
       "equals the written one (version, identifier, root, repository, files in order with checksum, language, line total, measurements, "
       "totals, folder profiles); re-writing reproduces the document up to the timestamp; with/without repository and with a repository of "
       "empty strings, version string/null; two of the files share a checksum but differ in language and functions. "
@@ -113,7 +114,8 @@ claim("C10", "other",
       "string or number / a list / an object, every integer replaced by true, 1.0 and its float (equal under ==, other JSON type), directory without document, without or with empty marker files; from each state, and "
       "from every state reached (closure = interleavings of faults and scans), the next scan completes, writes exactly the fresh-scan "
       "document and leaves document and both markers. Two genuine defects found by this rule were repaired (d97359d, 2d84a53). Larger "
-      "trees, OSError on the read and concurrent scans are not covered.",
+      "trees, OSError on the read and concurrent scans are not covered. What a scan leaves in the process for a second scan of the same "
+      "process is read off the effect inventory (no module-level / class-level state, mutable default or one-shot iterator written).",
       "Trusted: the virtual file system's model of pathlib (write_text truncates, mkdir, replace); json.loads/dumps; the measuring stub; sa.absint.",
       "DESIGN.md 4/C10, 13")
 
@@ -167,7 +169,8 @@ claim("C18", "other",
       "figures of a language present in both reports and the totals are annotated with current - previous, signed, exactly when they "
       "differ (equal, larger, smaller, 0->n, n->0, 0->0; a language whose previous figures are all zero but its files); text and Markdown "
       "agree cell by cell; with, without and with an empty comparison report, also after another ScanTotals was filled in the same "
-      "process; findings: threshold 30, all when full or at most 10, else the first 10 and N - 10 omitted, N = 9..12, with and "
+      "process; the renderers and the report / findings commands write no process-wide state (effect inventory as in C06); a second "
+      "listing of one report object shows what the first would have; findings: threshold 30, all when full or at most 10, else the first 10 and N - 10 omitted, N = 9..12, with and "
       "without repository. Rich layout and locale grouping are not decided.",
       "Trusted: sa.absint's semantics of the Python subset and of format specs (Python's own format()).",
       "DESIGN.md 4/C18, 12.3")
@@ -179,7 +182,8 @@ claim("C19", "other",
       "(8 boundary pairs, both renderers agree); the all-zero profile divides by nothing; the rounded-up terms have the form "
       "ceil(S - c), c <= 0.001; range: the remainder of independently rounded-up terms can be negative - a genuine defect of today's "
       "tree, listed as a known finding; quality_profile() evaluated on a code base follows it when an entry is replaced under the same "
-      "path, a file is added, or a second report is made. Accuracy within two points is not decided.",
+      "path, a file is added, or a second report is made; the summary renderers write no process-wide state. Accuracy within two points "
+      "is not decided.",
       "Trusted: CPython ast; sa.absint; ceil/round semantics for the recognised forms.",
       "DESIGN.md 4/C19, 12.3")
 
@@ -190,14 +194,16 @@ claim("C01", "other",
       "parent, a one-line function, a suppressed function, comments inside and between bodies, a keyword before the name, deeper "
       "nesting and a multi-line header; names, spans, lengths and order equal the reference, with and without nested functions, with "
       "extra comments, with two block-opening lines pushed 5000 columns to the right, with headers returned out of source order. Brace matching evaluated on all sequences over {open, close, other} "
-      "up to length 4; the Python suite rule by the terms its comparisons relate. That exactly the functions of each real grammar are "
+      "up to length 4; get_blocks interpreted on a nested brace text; the Python indentation scan interpreted on ten token programs "
+      "(nested functions followed by more lines at the end of a file included); measuring leaves the tokens' positions untouched. That exactly the functions of each real grammar are "
       "discovered (the seven extract_headers / extract_blocks on real pygments output) is NOT decided.",
       "Trusted: sa.absint's semantics of the Python subset; the stub language stands for 'headers and blocks were found correctly'.",
       "DESIGN.md 4/C01, 13")
 
 claim("C04", "other",
       "abstract interpretation of filter_tokens / Token.is_whitespace / Token.is_comment over kind x text classes, and of the measuring pipeline with and without extra comments (reference comparison)",
-      "Partial: the filter's keep/drop table over 15 token-kind classes x 4 text classes (evaluated on instances of the repo's Token with "
+      "Partial: the filter's keep/drop table over 15 token-kind classes x 6 text classes (blanks, tabs, line feeds, carriage returns, "
+      "form feeds and vertical tabs are blank) (evaluated on instances of the repo's Token with "
       "pygments types) equals the specification; scan_file interpreted on a token program gives the same names, spans and lengths when "
       "comment tokens are added inside bodies, between functions and inside headers, and when lines are pushed 5000 columns to the right "
       "by leading whitespace (the comment-free list is what every consumer of "
@@ -219,7 +225,7 @@ claim("C05", "other",
 
 claim("C16", "other",
       "abstract evaluation of lex at the pygments boundary (the lexer's tuples supplied: what is kept, in which order, with which text) and with a consistent text / newline table (position formula on all pieces and breakpoints); line-convention rule (AST)",
-      "Partial: of the lexer's tuples (comments of four kinds, one with surrounding blanks, blank / empty / multi-line Text, keyword, "
+      "Partial: of the lexer's tuples (also for a source without any line break; comments of four kinds, one with surrounding blanks, blank / empty / multi-line Text, keyword, "
       "name, punctuation, strings, operator, other) lex returns the code tokens unchanged, plus the comments exactly when "
       "filter_comments is false, in the lexer's order (plus the filter's abstract kind x text table); position = (newlines strictly "
       "before the offset + 1, offset - offset after the preceding newline + 1) on interior and boundary points of every piece, with, "
